@@ -167,6 +167,16 @@ CHECKS = {
         "never reappear, limits coincide with the common value when everything is fixed.",
         "Histories are bounded (<= 6 steps, <= 107 taxa, <= 9 loci); diploid binary coding.",
         "DESIGN.md §3 C10"),
+    "C17": (
+        "Hypothesis-generated weights/sizes/tables with seeded and scripted generators vs exact-rational expected counts and validity predicates; exhaustive enumeration of small cross tables",
+        "stochastic_universal_sampling: requested shape exactly, each element drawn floor or ceiling of its exact-rational expected count (exact "
+        "integers demanded exactly unless a pointer lies within rounding of a subset-sum boundary), zero weights never drawn; a scripted "
+        "RandomState places the offset at chosen fractions of the pointer spacing including within a few ulp of 0 and of the spacing. "
+        "tiled_choice without replacement: every option q or q+1 times with exactly the remainder at q+1. axis_shuffle: only the requested "
+        "slices are permuted. outcross_shuffle: multiset preserved, duplicates never increase, no pair exchange lowers them — all 858 tables "
+        "over three symbols up to 3x2 enumerated, larger ones generated.",
+        "Negative axes for axis_shuffle and non-contiguous tables for outcross_shuffle are outside the domain (undocumented / no caller).",
+        "DESIGN.md §3 C17"),
     "C18": (
         "Hypothesis-generated marker layouts/genotypes/effects vs partition predicate, exact-rational apportionment bound, run-length recomputation, marker-level block sums and brute-force block-boundary doubled haploids; NaN-filling allocator makes unwritten blocks visible",
         "Layouts with clustered positions, ties, markers on equal-width boundaries and zero-length chromosomes; block totals from the chromosome "
@@ -177,6 +187,16 @@ CHECKS = {
         "receives no marker (known finding F-C18-a, signature computed by the harness from the case alone) skip exactly the clauses it breaks.",
         "While pybrops runs, numpy.empty is replaced by an allocator that fills with NaN / a sentinel so uninitialised blocks cannot pass by luck.",
         "DESIGN.md §3 C18"),
+    "C19": (
+        "Exhaustive enumeration of small point sets + Hypothesis-generated fronts vs an O(n^2) dominance reference and explicit geometric projection",
+        "is_pareto_efficient: soundness (marked => not dominated in weighted objectives), completeness (unmarked => equalled or dominated by a "
+        "marked point), mask == index form, efficient vector set invariant under permutation and positive rescaling — every ordered sequence of "
+        "0..4 points on a {0,1,2}^2 grid under all sign patterns enumerated, larger/float sets generated. dominates(): Pareto dominance for "
+        "feasible pairs, smaller violation otherwise, irreflexive, asymmetric, transitive (grid enumerated). The three distance-to-preference-"
+        "vector transformations equal min-max scaling + orthogonal distance to the preference line computed by explicit projection, are "
+        "translation invariant where translation is exact, and finite for constant objectives.",
+        "Translation clause only on grids where the translation is exact in binary64.",
+        "DESIGN.md §3 C19"),
     "C20": (
         "Exhaustive enumeration (nrep<=2, ngen<=2, 4^4 operator behaviours) + Hypothesis-generated evolve/advance scripts; trace conformance against a value-semantics reference interpreter",
         "Instrumented operators (pure / return-same / mutate-in-place / mutate-then-new) record what they receive; a reference interpreter "
